@@ -16,6 +16,7 @@ from common import Report
 from props import base
 
 FAMILY = "corr:draw:diagram2nx"
+FAMILY_NX = "corr:draw:nx2diagram"
 QUARTER, ONE = Fraction(1, 4), Fraction(1)
 MAX_DEN_EXP = 40
 
@@ -479,9 +480,15 @@ def snippet_render(program):
             "print(di.render(di.build(%s), t.name, 'd'))\"" % (common.REPO, json.dumps(program)))
 
 
-def round_trips(rep, di, p, d, always_offset):
-    """diagramize on the planar-order body of d, and nx2diagram on diagram2nx(d)."""
-    for what, call in (("diagramize", lambda: di.via_diagramize(p, always_offset=always_offset)),
+def round_trips(rep, di, p, d, always_offset, mono):
+    """diagramize on the planar-order body of d, and nx2diagram on diagram2nx(d).
+    Returns the offsets of the diagram the real diagramize returned (None if it raised)."""
+    offsets = None
+    names = di.MONO if mono else di.NAMES      # mono: a wrong offset still type-checks
+    if mono:
+        d = di.build(p, names)
+    rep.count("roundtrip:names:" + "".join(names))
+    for what, call in (("diagramize", lambda: di.via_diagramize(p, names, always_offset)),
                        ("nx2diagram", lambda: di.via_nx2diagram(d))):
         try:
             back = call()
@@ -490,15 +497,40 @@ def round_trips(rep, di, p, d, always_offset):
             rep.violation("%s raised %s on a planar-order body" % (what, type(exc).__name__),
                           {"program": p, "stage": what,
                            "exception": "%s: %s" % (type(exc).__name__, exc),
-                           "always_offset": always_offset, "replay": snippet(p)})
+                           "always_offset": always_offset, "names": list(names),
+                           "replay": snippet(p)})
             continue
+        if what == "diagramize":
+            offsets = [int(o) for o in back.offsets]
         if di.same_diagram(back, d):
             rep.count("roundtrip:%s:ok" % what)
         else:
             rep.count("roundtrip:%s:different" % what)
             rep.violation("%s of a planar-order body yields a different wiring" % what,
                           {"program": p, "stage": what, "expected": repr(d), "got": repr(back),
-                           "always_offset": always_offset, "replay": snippet(p)})
+                           "always_offset": always_offset, "names": list(names),
+                           "replay": snippet(p)})
+    return offsets
+
+
+def nx2diagram_correspondence(rep, trips, disagreements):
+    """The offsets the real diagramize read back from the wiring graph against the
+    model of nx2diagram (program kind 9 of the draw runner), one batch."""
+    if not trips:
+        return
+    answers = common.run_model("draw", [[9] + p for p, _ in trips])
+    for (p, offsets), answer in zip(trips, answers):
+        if answer[0] == 1 and answer[1] == 8:
+            raise RuntimeError("model could not decode %r" % ([9] + p,))
+        rep.disagreements_checked += 1
+        model = [0, list(answer[1])] if answer[0] == 0 else answer
+        impl = [0, offsets] if offsets is not None else [1, "diagramize raised"]
+        if common.freeze(impl) == common.freeze(model):
+            rep.count("corr-nx2diagram:agree")
+        else:
+            rep.count("corr-nx2diagram:differ")
+            disagreements.append({"family": FAMILY_NX, "class": "monoidal", "program": [9] + p,
+                                  "impl": impl, "model": model})
 
 
 # ------------------------------------------------------------------ the check
@@ -518,7 +550,7 @@ def run(tier, seed):
     smoke_budget = 90.0 if quick else 420.0
     state = {"rendered": 0, "failed": 0, "seconds": 0.0, "skipped_empty": 0,
              "skipped_budget": 0}
-    disagreements = []
+    disagreements, trips = [], []
     t_layout = t_oracle = 0.0
     with tempfile.TemporaryDirectory(prefix="c20-") as directory:
         for index, ((stream, p), answer, (u_smoke, u_trip, u_off)) in enumerate(
@@ -598,7 +630,9 @@ def run(tier, seed):
                     smoke(rep, di, directory, index, p, d, state)
             # ---- diagramize / nx2diagram round trips
             if stream == "corpus" or u_trip < trip_rate:
-                round_trips(rep, di, p, d, always_offset=u_off < 0.25)
+                trips.append((p, round_trips(
+                    rep, di, p, d, always_offset=int(u_off * 100) % 4 == 0, mono=u_off >= 0.5)))
+    nx2diagram_correspondence(rep, trips, disagreements)
     rep.extra["backend_smoke"] = {
         "kind": "test, not proof", "rendered": state["rendered"], "failed": state["failed"],
         "skipped_empty": state["skipped_empty"], "skipped_budget": state["skipped_budget"],
@@ -618,9 +652,10 @@ def run(tier, seed):
             rep.violation(
                 "correspondence %s no longer checks: implementation and model differ on %d "
                 "case(s); no input violating the property itself was found"
-                % (FAMILY, len(disagreements)),
-                {"broken": FAMILY, "first_disagreement": first,
-                 "n_disagreements": len(disagreements), "replay": snippet(first["program"])},
+                % (first["family"], len(disagreements)),
+                {"broken": first["family"], "first_disagreement": first,
+                 "n_disagreements": len(disagreements),
+                 "replay": snippet(first["program"][-4:])},
                 found_input=False)
     base.settle(rep, "C20", proof_ok, "C20")
     return rep.finish(
@@ -636,7 +671,8 @@ def run(tier, seed):
                  "dom 1/2/3)",
                  6 if quick else 8, 10 if quick else 14),
         trusted_base=[base.TRUSTED_CORE[0],
-                      "hand-written Gallina model coq/Draw/Layout.v of drawing.diagram2nx, tied to "
+                      "hand-written Gallina model coq/Draw/Layout.v of drawing.diagram2nx (and of the "
+                      "offsets nx2diagram reads back, program kind 9), tied to "
                       "/repo only by this run's correspondence check (differential testing on "
                       "exact rationals)"] + base.TRUSTED_CORE[2:] + [
                           "networkx, matplotlib (Agg) as installed; rendering is smoke-tested, "
